@@ -494,10 +494,18 @@ impl Report {
         // the way there feed the evidence; on the way back a point that was clean there is judged by the same clauses again.
         // (run length: 64 for large lattices, shorter - at least 8 - for small ones, so that there are at least 64 runs to
         // spread over the pool)
-        let run_len: usize = (pts.len() / 64).clamp(8, 64);
+        // Points that are whole explorations (E2 / E3: seconds each) are not chained: three probe points (first, middle,
+        // last) are timed first; if one of them takes more than 100 ms every point gets its own fresh thread (runs of
+        // length 1, no way back) - chaining such points would only serialise the pool.
+        let heavy = !pts.is_empty() && [0, pts.len() / 2, pts.len() - 1].iter().any(|&q| {
+            let t = Instant::now();
+            let _ = Self::run_after(c, &pts, &[], q);
+            t.elapsed().as_secs_f64() > 0.1
+        });
+        let run_len: usize = if heavy { 1 } else { (pts.len() / 64).clamp(8, 64) };
         let all_idx: Vec<usize> = (0..pts.len()).collect();
         let back_limit_s: f64 = if self.tier == Tier::Quick { f64::INFINITY } else { 120.0 };
-        let do_back = std::env::var("VERIF_NO_HISTORY_PASS").is_err();
+        let do_back = std::env::var("VERIF_NO_HISTORY_PASS").is_err() && !heavy;
         // (the runs are handed to the pool alternately from the end and from the start of the lattice: the expensive points
         // of a nested-loop lattice sit together at one of its ends and would otherwise all land on the last few threads)
         let chunks: Vec<&[usize]> = all_idx.chunks(run_len).collect();
@@ -759,7 +767,7 @@ impl Report {
             "known_findings_reproduced": known_lines,
             "machinery_errors": self.machinery,
             "history_pass_points": self.history_points,
-            "history_pass_rule": "the lattice is cut into runs of 8 to 64 consecutive points (n/64, clamped); every run is executed on a fresh thread from its first point to its last and then back down to the first, and every execution is judged by the same clauses (a point that violates a clause only after earlier calls is reproduced twice on fresh threads from the shortest suffix of its run history that reproduces it, and reported with that history); in the thorough tier the way back is skipped for runs that start more than 120 s into the check",
+            "history_pass_rule": "the lattice is cut into runs of 8 to 64 consecutive points (n/64, clamped; checks whose points are whole explorations - a probe point takes over 100 ms - run every point alone on a fresh thread instead); every run is executed on a fresh thread from its first point to its last and then back down to the first, and every execution is judged by the same clauses (a point that violates a clause only after earlier calls is reproduced twice on fresh threads from the shortest suffix of its run history that reproduces it, and reported with that history); in the thorough tier the way back is skipped for runs that start more than 120 s into the check",
         });
         if self.level == "model_checking" {
             let m = coverage.as_object_mut().unwrap();
